@@ -550,6 +550,17 @@ where
     pub fn stop(&self) {
         self.close();
 
+        // wait until the reducer loop has drained the queue and scheduled the effects of the
+        // remaining actions: the pool has to stay available until then
+        let pool_alive = self.pool.lock().unwrap().clone();
+        if let Some(pool) = pool_alive {
+            if cfg!(dev) {
+                pool.join();
+            } else {
+                pool.join_timeout(Duration::from_secs(3));
+            }
+        }
+
         // Shutdown the thread pool with timeout
         #[cfg(rs_store_verif)]
         crate::verif::pt(
